@@ -118,3 +118,16 @@ func trimStack(b []byte) string {
 	}
 	return strings.Join(keep, "\n")
 }
+
+// FindVar returns the goverter:variables raw converter that declares the function variable name.
+func (s *Session) FindVar(name string) (config.RawConverter, bool) {
+	for _, r := range s.All {
+		if r.InterfaceName != "" {
+			continue
+		}
+		if _, ok := r.Methods[name]; ok {
+			return r, true
+		}
+	}
+	return config.RawConverter{}, false
+}
